@@ -162,7 +162,7 @@ theorem exec_do_local (env : Env N) (ns : List String) (es : List Expr) (S : Stm
 end sem
 
 section heap
-variable {N : NumOps} {Q : QRel} {cx : Cx} {D : List DName} {β : CellRel}
+variable {N : NumOps} {Q : QRel} {cx : Cx} {D : List DName} {β : CellRel N}
 variable {call : CallFn N} {ρ : ExtOracle N} {k : Nat}
 
 /-- the tail respects the heap relation -/
